@@ -55,6 +55,9 @@ CHECKS = {
  "C15": dict(technique="model-based PBT: introspection result decoded into the schema-structure model and compared with an independent extraction; semantic default-value round trip; includeDeprecated and disable_introspection probes",
              text="For generated schemas the standard introspection query's result must decode to exactly the structure extracted from schema.types/directives (kinds, members in order, wrappers, interfaces, possible types, directives, roots, deprecations); each defaultValue must parse as a GraphQL value and coerce to the declared default; includeDeprecated absent/false/true and disable_introspection behave as specified; thorough repeats it under every runtime configuration.",
              note="Trusted: decode()/expected_from_schema() in props/c15.py, vlib/ref/schemastruct.extract.", ref="3/C15"),
+ "C18": dict(technique="model-based PBT: expected traversal from a generic walker over the reference parser tree, per-(parent kind, slot) attribution; edit plans (delete / replace / skip) with expected events and resulting tree; chained and dispatching visitors",
+             text="Generated documents are visited with recording plain, dispatching (all hooks by reflection) and chained visitors; events must be enter/leave once per non-name node, nested, siblings in source order; a no-op visit leaves the tree equal; one drawn deletion / replacement / SkipNode must change exactly that node and its events; the three ast_transforms change only what they announce.",
+             note="Trusted: vlib/ref/parser.py trees, expected-event derivation in props/c18.py. 21 traversal gaps pinned by the test-suite are listed as known findings by (kind, slot).", ref="3/C18"),
 }
 ALL = ["C%02d" % i for i in range(1, 21)]
 NA_REASON = "check not built yet (work in progress; see DESIGN.md section 3 for the planned design)"
